@@ -319,15 +319,19 @@ package gogen
 
 //@ func toType
 //@ prop C13
-//@ requires pkg != nil && typ != nil
-//@ assigns heapexcept(types.Type)
+//@ requires pkg != nil && pkg.file != nil && pkg.file.imps != nil && typ != nil && StdType(typ)
+//@ assigns pkg.file.dirty, map(pkg.file.imps)
 //@ ensures result != nil
+//@ ensures TypeShape(pkg, result, typ)
+//@ defines TE(result, typ)
+//@ ensures ImpsGrow(pkg)
 
 //@ func zeroCompositeLit
 //@ prop C14
-//@ requires p != nil && typ != nil
-//@ assigns heapexcept(types.Type)
-//@ ensures fresh(result)
+//@ requires p != nil && p.file != nil && p.file.imps != nil && typ != nil && StdType(typ)
+//@ assigns p.file.dirty, map(p.file.imps)
+//@ ensures fresh(result) && TE(result.Type, typ)
+//@ ensures ImpsGrow(p)
 
 //@ func (*Package).Zero
 //@ prop C14
@@ -495,3 +499,183 @@ package gogen
 //@ ensures imp(result == nil, fresh(p.stk.data[len(p.stk.data)-1]))
 //@ ensures imp(result == nil && IsBuiltinPanicCall(p, p.stk.data[len(p.stk.data)-1].Val), in(p.current.panicCalls, p.stk.data[len(p.stk.data)-1].Val.(*ast.CallExpr)))
 //@ ensures imp(result == nil && !IsBuiltinPanicCall(p, p.stk.data[len(p.stk.data)-1].Val), p.current.panicCalls == old(p.current.panicCalls) && imp(p.current.panicCalls != nil, forall(i, 0, 1, true)))
+
+
+// ---------------------------------------------------------------------------
+// C13 / C09 — type expressions and qualified references
+
+//@ func (*File).newImport
+//@ prop C09 C13
+//@ requires p.imps != nil
+//@ assigns p.dirty, map(p.imps)
+//@ ensures result != nil && in(p.imps, pkgPath) && p.imps[pkgPath] == result
+//@ ensures imp(old(in(p.imps, pkgPath) && p.imps[pkgPath] != nil), result == old(p.imps[pkgPath]) && p.dirty == old(p.dirty))
+//@ ensures imp(!old(in(p.imps, pkgPath) && p.imps[pkgPath] != nil), fresh(result) && result.Name == name && result.Obj != nil && p.dirty)
+//@ ensures mforall(k, p.imps, imp(k != pkgPath, in(old(p.imps), k) && p.imps[k] == old(p.imps[k])))
+//@ ensures sforall(k, imp(k != pkgPath && old(in(p.imps, k)), in(p.imps, k) && p.imps[k] == old(p.imps[k])))
+//@ ensures p.imps == old(p.imps)
+
+//@ func toObjectTypeExpr
+//@ prop C09 C13
+//@ requires pkg != nil && pkg.file != nil && pkg.file.imps != nil && v != nil
+//@ assigns pkg.file.dirty, map(pkg.file.imps)
+//@ ensures result != nil && ObjRefShape(pkg, result, v)
+//@ ensures ImpsGrow(pkg)
+
+// a reference to an object of package unsafe (panics with a message if the name does not exist)
+//@ func unsafeRef
+//@ prop C13
+//@ readonly
+//@ ensures result != nil
+
+//@ func (PkgRef).Ref
+//@ prop C13
+//@ readonly
+//@ ensures result != nil
+
+//@ func (PkgRef).TryRef
+//@ trusted
+//@ readonly
+
+//@ func toBasicType
+//@ prop C13
+//@ requires pkg != nil && pkg.file != nil && pkg.file.imps != nil && t != nil
+//@ assigns pkg.file.dirty, map(pkg.file.imps)
+//@ ensures result != nil
+//@ ensures imp(t.Kind() != types.UnsafePointer, typeis(result, *ast.Ident) && result.(*ast.Ident).Name == t.Name() && t.Kind() < 19)
+//@ ensures ImpsGrow(pkg)
+
+//@ func toSliceType
+//@ prop C13
+//@ requires pkg != nil && pkg.file != nil && pkg.file.imps != nil && t != nil && StdType(t.Elem())
+//@ assigns pkg.file.dirty, map(pkg.file.imps)
+//@ ensures result != nil && SliceShape(result, t)
+//@ ensures ImpsGrow(pkg)
+
+//@ func toArrayType
+//@ prop C13
+//@ requires pkg != nil && pkg.file != nil && pkg.file.imps != nil && t != nil && StdType(t.Elem())
+//@ assigns pkg.file.dirty, map(pkg.file.imps)
+//@ ensures result != nil && ArrayShape(result, t)
+//@ ensures ImpsGrow(pkg)
+
+//@ func toMapType
+//@ prop C13
+//@ requires pkg != nil && pkg.file != nil && pkg.file.imps != nil && t != nil && StdType(t.Elem()) && StdType(t.Key())
+//@ assigns pkg.file.dirty, map(pkg.file.imps)
+//@ ensures result != nil && MapShape(result, t)
+//@ ensures ImpsGrow(pkg)
+
+//@ func toChanType
+//@ prop C13
+//@ requires pkg != nil && pkg.file != nil && pkg.file.imps != nil && t != nil && StdType(t.Elem())
+//@ assigns pkg.file.dirty, map(pkg.file.imps)
+//@ ensures result != nil && ChanShape(result, t)
+//@ ensures ImpsGrow(pkg)
+
+//@ func toTag
+//@ prop C13
+//@ readonly
+//@ ensures fresh(result) && result.Kind == token.STRING && result.Value == TagLit(tag)
+
+//@ func toFields
+//@ prop C13
+//@ requires pkg != nil && pkg.file != nil && pkg.file.imps != nil && t != nil
+//@ assigns pkg.file.dirty, map(pkg.file.imps)
+//@ loop 0 invariant 0 <= i && i <= n && n == t.NumFields() && len(flds) == n && fresh(flds) && forall(k, 0, i, FieldShape(flds[k], t, k)) && ImpsGrow(pkg)
+//@ ensures len(result) == t.NumFields() && forall(k, 0, t.NumFields(), FieldShape(result[k], t, k))
+//@ ensures ImpsGrow(pkg)
+
+//@ func toStructType
+//@ prop C13
+//@ requires pkg != nil && pkg.file != nil && pkg.file.imps != nil && t != nil
+//@ assigns pkg.file.dirty, map(pkg.file.imps)
+//@ ensures result != nil && StructShape(result, t)
+//@ ensures ImpsGrow(pkg)
+
+//@ func toVariadic
+//@ prop C13
+//@ requires fld != nil
+//@ assigns fld.Type
+//@ ensures typeis(old(fld.Type), *ast.ArrayType) && old(fld.Type.(*ast.ArrayType).Len) == nil
+//@ ensures typeis(fld.Type, *ast.Ellipsis) && fld.Type.(*ast.Ellipsis).Elt == old(fld.Type.(*ast.ArrayType).Elt)
+
+//@ func toFieldList
+//@ prop C13
+//@ requires pkg != nil && pkg.file != nil && pkg.file.imps != nil
+//@ assigns pkg.file.dirty, map(pkg.file.imps)
+//@ loop 0 invariant 0 <= i && i <= n && n == t.Len() && len(flds) == n && fresh(flds) && forall(k, 0, i, ParamShape(pkg, flds[k], t, k)) && forall(k, 0, i, fresh(flds[k])) && forall(k, 0, i, forall(j, 0, k, flds[j] != flds[k])) && ImpsGrow(pkg)
+//@ loop 0 invariant forall(k, 0, i, imp(typeis(t.At(k).Type(), *types.Slice), SliceShape(flds[k].Type, t.At(k).Type().(*types.Slice))))
+//@ ensures imp(t == nil, result == nil)
+//@ ensures imp(t != nil, len(result) == t.Len() && forall(k, 0, t.Len(), ParamShape(pkg, result[k], t, k) && fresh(result[k])))
+//@ ensures imp(t != nil, forall(k, 0, t.Len(), forall(j, 0, k, result[j] != result[k])))
+//@ ensures imp(t != nil, forall(k, 0, t.Len(), imp(typeis(t.At(k).Type(), *types.Slice), SliceShape(result[k].Type, t.At(k).Type().(*types.Slice)))))
+//@ ensures ImpsGrow(pkg)
+
+//@ func toFieldListX
+//@ prop C13
+//@ requires pkg != nil && pkg.file != nil && pkg.file.imps != nil
+//@ assigns pkg.file.dirty, map(pkg.file.imps)
+//@ loop 0 invariant 0 <= i && i <= n && n == t.Len() && len(flds) == n && fresh(flds) && forall(k, 0, i, TParamFieldShape(flds[k], t, k)) && ImpsGrow(pkg)
+//@ ensures imp(t == nil, result == nil)
+//@ ensures imp(t != nil, result != nil && len(result.List) == t.Len() && forall(k, 0, t.Len(), TParamFieldShape(result.List[k], t, k)))
+//@ ensures ImpsGrow(pkg)
+
+//@ func toFuncType
+//@ prop C13
+//@ requires pkg != nil && pkg.file != nil && pkg.file.imps != nil && sig != nil
+//@ assigns pkg.file.dirty, map(pkg.file.imps)
+//@ ensures result != nil && result.Params != nil && len(result.Params.List) == sig.Params().Len() && result.Results != nil && len(result.Results.List) == sig.Results().Len()
+//@ ensures forall(i, 0, sig.Params().Len(), ite(sig.Variadic() && i == sig.Params().Len() - 1, VariadicShape(pkg, result.Params.List[i], sig.Params(), i), ParamShape(pkg, result.Params.List[i], sig.Params(), i)))
+//@ ensures forall(i, 0, sig.Results().Len(), ParamShape(pkg, result.Results.List[i], sig.Results(), i))
+//@ ensures ite(sig.TypeParams() == nil, result.TypeParams == nil, result.TypeParams != nil && len(result.TypeParams.List) == sig.TypeParams().Len() && forall(i, 0, sig.TypeParams().Len(), TParamFieldShape(result.TypeParams.List[i], sig.TypeParams(), i)))
+//@ ensures ImpsGrow(pkg)
+
+//@ func toTypeArgs
+//@ prop C13
+//@ requires pkg != nil && pkg.file != nil && pkg.file.imps != nil
+//@ assigns pkg.file.dirty, map(pkg.file.imps)
+//@ loop 0 invariant 0 <= i && i <= n && n == targs.Len() && len(indices) == n && fresh(indices) && forall(k, 0, i, TE(indices[k], targs.At(k))) && ImpsGrow(pkg)
+//@ ensures TypeArgsShape(result, expr, targs)
+//@ ensures ImpsGrow(pkg)
+
+//@ func toNamedType
+//@ prop C13 C09
+//@ requires pkg != nil && pkg.file != nil && pkg.file.imps != nil && t != nil
+//@ assigns pkg.file.dirty, map(pkg.file.imps)
+//@ ensures result != nil
+//@ ensures imp(t.TypeArgs() == nil, ObjRefShape(pkg, result, asI(t.Obj(), types.Object)))
+//@ ensures imp(t.TypeArgs() != nil && t.TypeArgs().Len() == 1, typeis(result, *ast.IndexExpr) && ObjRefShape(pkg, result.(*ast.IndexExpr).X, asI(t.Obj(), types.Object)) && TE(result.(*ast.IndexExpr).Index, t.TypeArgs().At(0)))
+//@ ensures imp(t.TypeArgs() != nil && t.TypeArgs().Len() != 1, typeis(result, *ast.IndexListExpr) && ObjRefShape(pkg, result.(*ast.IndexListExpr).X, asI(t.Obj(), types.Object)) && len(result.(*ast.IndexListExpr).Indices) == t.TypeArgs().Len() && forall(i, 0, t.TypeArgs().Len(), TE(result.(*ast.IndexListExpr).Indices[i], t.TypeArgs().At(i))))
+//@ ensures ImpsGrow(pkg)
+
+//@ func (*optionalVars).isParamOptional
+//@ prop C11 C13
+//@ readonly
+//@ ensures result == o.paramsMeta[param]
+
+//@ func toAliasType
+//@ prop C13 C09
+//@ requires pkg != nil && pkg.file != nil && pkg.file.imps != nil && t != nil
+//@ assigns pkg.file.dirty, map(pkg.file.imps)
+//@ ensures result != nil && ImpsGrow(pkg)
+//@ ensures imp(t.TypeArgs() == nil, ObjRefShape(pkg, result, asI(t.Obj(), types.Object)))
+
+//@ func interfaceIsImplicit
+//@ prop C13
+//@ pure
+
+//@ func toInterface
+//@ prop C13
+//@ requires pkg != nil && pkg.file != nil && pkg.file.imps != nil && t != nil
+//@ assigns pkg.file.dirty, map(pkg.file.imps)
+//@ loop 0 invariant 0 <= i && i <= n && n == t.NumEmbeddeds() && ImpsGrow(pkg) && (flds == nil || fresh(flds)) && unchanged("A!*ast.Field")
+//@ loop 1 invariant 0 <= i && i <= n && n == t.NumExplicitMethods() && ImpsGrow(pkg) && (flds == nil || fresh(flds)) && unchanged("A!*ast.Field")
+//@ ensures result != nil && ImpsGrow(pkg)
+
+//@ func toUnionType
+//@ prop C13
+//@ requires pkg != nil && pkg.file != nil && pkg.file.imps != nil && t != nil && t.Len() >= 1
+//@ assigns pkg.file.dirty, map(pkg.file.imps)
+//@ loop 0 invariant 0 <= i && i <= n && n == t.Len() && ImpsGrow(pkg) && imp(i > 0, v != nil)
+//@ ensures result != nil && ImpsGrow(pkg)
